@@ -7,7 +7,7 @@ dispute are well formed) and a more specific class for shapes that are accepted 
 unstated assumption of its model (negative knapsack profits, negative misp weights, duplicate clauses / edges, ...).
 `exhaustive(name)` yields the bounded-exhaustive families of the very smallest sizes (thorough tier).
 """
-import itertools
+import itertools, os
 from gen import Rng
 
 EXAMPLES = ["knapsack", "misp", "max2sat", "mcp", "lcs", "golomb", "sop", "tsptw", "srflp", "talentsched", "psp", "alp"]
@@ -467,7 +467,7 @@ def talent_text(dur, actors, one_line=False, name="gen"):
 def gen_talentsched(r, i):
     shape = ["plain", "plain", "unit", "dense", "sparse", "zero_cost", "single_scene", "single_actor", "idle_actor", "ties"][i % 10]
     ns = 1 if shape == "single_scene" else r.range(2, 7)
-    na = 1 if shape == "single_actor" else r.range(2, 5)
+    na = 1 if shape == "single_actor" else r.range(2, 8)
     den = (3, 4) if shape == "dense" else (1, 4) if shape == "sparse" else (1, 2)
     dur = [1 if shape == "unit" else r.range(1, 3) if shape == "ties" else r.range(1, 9) for _ in range(ns)]
     actors = []
@@ -601,6 +601,7 @@ def corpus(example):
         ],
         "lcs": [("core", lcs_text(["abaaaa", "baaaba"], 2)),                                          # lcs 5, width 1 prints 4
                 ("core", lcs_text(["baaabab", "aabbbbab"], 2))],
+        "talentsched": [("core", open(os.path.join(os.path.dirname(os.path.dirname(os.path.abspath(__file__))), "corpus", "C16", "talentsched_width1_1497_vs_1496.txt")).read())],
         "sop": [("core", sop_text([[0, 23, 28, 29], [-1, 0, -1, 28], [-1, -1, 0, 15], [-1, -1, -1, 0]]))],   # contradictory precedences
         "psp": [("core", psp_text(2, [[0, 2], [9, 0]], [8, 8], [[1, 1], [1, 1]]))],                 # infeasible
         "alp": [("core", alp_text(1, [(0, 0, 0), (0, 0, 0)], [[1]])),                                # infeasible
